@@ -114,10 +114,19 @@ class OsetEngine(Engine):
                 return {'k': 'slot', 't': rng.randrange(nsets)}
             n = rng.randint(0, 4)
             els = rng.sample(range(UNIVERSE_N), n)
+            if els and rng.random() < 0.3:
+                # an iterable operand may mention an element more than once: it still denotes a set
+                els.insert(rng.randint(0, len(els)), rng.choice(els))
             return {'k': rng.choice(['list', 'tuple', 'gen']), 'e': els}
 
         def operand_elems(o):
-            return list(sets[o['t']]) if o['k'] == 'slot' else list(o['e'])
+            if o['k'] == 'slot':
+                return list(sets[o['t']])
+            out = []
+            for e in o['e']:
+                if e not in out:
+                    out.append(e)
+            return out
 
         for _ in range(cfg['steps']):
             actor = sched.randrange(cfg['clients'])
@@ -307,11 +316,17 @@ class OsetEngine(Engine):
                 t = o['t'] if o['t'] < nsets else me
                 return real[t], list(ref[t])
             els = [U[e] for e in o['e']]
+            uniq = []
+            for e in els:
+                if not any(e is u for u in uniq):
+                    uniq.append(e)
+            if len(uniq) != len(els):
+                bump(probes, 'operand_with_duplicates')
             if o['k'] == 'list':
-                return list(els), els
+                return list(els), uniq
             if o['k'] == 'tuple':
-                return tuple(els), els
-            return (x for x in list(els)), els
+                return tuple(els), uniq
+            return (x for x in list(els)), uniq
 
         def adopt(i, expected_set, survivors, where):
             '''
@@ -600,7 +615,7 @@ class OsetEngine(Engine):
     def reach_missing(self, prop, tier, probes, faults):
         need = ['F1_remove_missing', 'F1_pop_empty', 'F7_iter_remove_current']
         missing = [k for k in need if not faults.get(k)]
-        missing += [k for k in ('iter_exhausted', 'order_adopted', 'aliased_inplace', 'eq_true', 'eq_false')
+        missing += [k for k in ('iter_exhausted', 'order_adopted', 'aliased_inplace', 'eq_true', 'eq_false', 'operand_with_duplicates')
                     if not probes.get(k)]
         return missing
 
